@@ -160,25 +160,158 @@ def expected_launches(prog):
 
 
 def visible_lines():
-    """lines of supp/remote.py whose statement mentions self or one of the shared/patched globals;
-    all other lines only compute on locals and commute with every step of every other thread"""
+    """lines of supp/remote.py whose statement mentions self, a module-level name of supp.remote that is not a plain
+    function/class of its own (threading, time, Popen, ...), or a local that may alias something reached through
+    those (intra-function taint: assigned from an expression mentioning a shared or tainted name).  All other
+    lines only compute on private locals and commute with every step of every other thread."""
     import ast
     src = open(REMOTE_FILE).read()
     tree = ast.parse(src)
-    shared = {'self', 'Popen', 'Client', 'time', 'Thread', 'Lock'}
+    shared0 = {'self', 'Popen', 'Client', 'time', 'sleep', 'Thread', 'Lock', 'RLock', 'threading', 'subprocess', 'connection',
+               'multiprocessing'}
+    for node in tree.body:
+        if isinstance(node, (ast.Import, ast.ImportFrom)):
+            for a in node.names:
+                shared0.add((a.asname or a.name).split('.')[0])
+        elif isinstance(node, (ast.Assign, ast.AnnAssign, ast.AugAssign)):
+            for n in ast.walk(node):
+                if isinstance(n, ast.Name) and isinstance(n.ctx, ast.Store):
+                    shared0.add(n.id)
+    shared0 -= {'sys', 'os', 'dumps', 'loads', 'umsgpack'}       # pure helpers (codec, paths)
+
+    # attributes of self that are written (or deleted) anywhere but in __init__; reading any other attribute of self
+    # (executable, env, logfile, the methods) commutes with everything
+    mutable = set()
+    for fn in ast.walk(tree):
+        if isinstance(fn, (ast.FunctionDef, ast.AsyncFunctionDef)) and fn.name != '__init__':
+            for n in ast.walk(fn):
+                if isinstance(n, ast.Attribute) and isinstance(n.ctx, (ast.Store, ast.Del)):
+                    mutable.add(n.attr)
+                elif isinstance(n, ast.Call) and getattr(n.func, 'id', None) in ('setattr', 'delattr', 'hasattr', 'getattr', 'vars'):
+                    for a in n.args[1:2]:
+                        mutable.add(a.value if isinstance(a, ast.Constant) else '*')
+
+    methods = {n.name for c in tree.body if isinstance(c, ast.ClassDef) for n in c.body if isinstance(n, ast.FunctionDef)}
+
+    def names(node):
+        out = {n.id for n in ast.walk(node) if isinstance(n, ast.Name)}
+        if 'self' in out and '*' not in mutable:
+            # self.<never reassigned attribute> used as a plain value, or self.<method>(...): nothing another thread can
+            # influence.  An attribute that is itself dereferenced (self.prepare_lock.acquire(), `with self.prepare_lock`,
+            # self.conn.send_bytes) operates on a shared object and stays visible.
+            loud_ids = set()
+            for n in ast.walk(node):
+                if isinstance(n, ast.Attribute) and isinstance(n.value, ast.Attribute):
+                    loud_ids.add(id(n.value))
+                elif isinstance(n, ast.Subscript) and isinstance(n.value, ast.Attribute):
+                    loud_ids.add(id(n.value))
+                elif isinstance(n, ast.withitem):
+                    loud_ids.add(id(n.context_expr))
+                elif isinstance(n, ast.Call) and isinstance(n.func, ast.Attribute) and n.func.attr not in methods:
+                    loud_ids.add(id(n.func))
+            if isinstance(node, list):
+                pass
+            quiet = sum(1 for n in ast.walk(node) if isinstance(n, ast.Attribute) and isinstance(n.value, ast.Name)
+                        and n.value.id == 'self' and isinstance(n.ctx, ast.Load) and n.attr not in mutable and id(n) not in loud_ids)
+            total = sum(1 for n in ast.walk(node) if isinstance(n, ast.Name) and n.id == 'self')
+            if quiet == total:
+                out.discard('self')
+        return out
+
     vis = set()
-    for node in ast.walk(tree):
-        if isinstance(node, ast.stmt) and not isinstance(node, (ast.FunctionDef, ast.ClassDef, ast.If, ast.While, ast.For, ast.Try, ast.With)):
-            names = {n.id for n in ast.walk(node) if isinstance(n, ast.Name)}
-            if names & shared:
-                for ln in range(node.lineno, node.end_lineno + 1):
-                    vis.add((REMOTE_FILE, ln))
-        elif isinstance(node, (ast.If, ast.While, ast.With)):
-            hdr = node.test if hasattr(node, 'test') else node.items[0].context_expr
-            names = {n.id for n in ast.walk(hdr) if isinstance(n, ast.Name)}
-            if names & shared:
-                vis.add((REMOTE_FILE, node.lineno))
+    funcs = [n for n in ast.walk(tree) if isinstance(n, (ast.FunctionDef, ast.AsyncFunctionDef, ast.Lambda))]
+    for fn in funcs + [tree]:
+        shared = set(shared0)
+        body = list(ast.walk(fn))
+        changed = True
+        while changed:
+            changed = False
+            for node in body:
+                tgt = val = None
+                if isinstance(node, ast.Assign):
+                    tgt, val = node.targets, node.value
+                elif isinstance(node, (ast.AnnAssign, ast.AugAssign)) and node.value is not None:
+                    tgt, val = [node.target], node.value
+                elif isinstance(node, ast.NamedExpr):
+                    tgt, val = [node.target], node.value
+                elif isinstance(node, (ast.For, ast.comprehension)):
+                    tgt, val = [node.target], node.iter
+                elif isinstance(node, ast.withitem) and node.optional_vars is not None:
+                    tgt, val = [node.optional_vars], node.context_expr
+                if tgt is None or not (names(val) & shared):
+                    continue
+                for t in tgt:
+                    for n in ast.walk(t):
+                        if isinstance(n, ast.Name) and n.id not in shared:
+                            shared.add(n.id)
+                            changed = True
+        for node in body:
+            if isinstance(node, ast.stmt) and not isinstance(node, (ast.FunctionDef, ast.AsyncFunctionDef, ast.ClassDef, ast.If, ast.While,
+                                                                    ast.For, ast.Try, ast.With)):
+                if names(node) & shared:
+                    for ln in range(node.lineno, node.end_lineno + 1):
+                        vis.add((REMOTE_FILE, ln))
+            elif isinstance(node, (ast.If, ast.While, ast.With, ast.For)):
+                if isinstance(node, ast.With):
+                    hdr = node.items
+                elif isinstance(node, ast.For):
+                    hdr = [node.iter, node.target]
+                else:
+                    hdr = [node.test]
+                if any(names(h) & shared for h in hdr):
+                    vis.add((REMOTE_FILE, node.lineno))
     return vis
+
+
+class _Namespace(object):
+    """stand-in for a module object bound in supp.remote (threading / time / subprocess / multiprocessing.connection):
+    the faked members first, everything else from the real module"""
+    def __init__(self, real, **fakes):
+        self.__dict__['_real'] = real
+        self.__dict__.update(fakes)
+
+    def __getattr__(self, name):
+        return getattr(self.__dict__['_real'], name)
+
+
+def patch_remote(s, world):
+    """Put the scheduler's Lock/Thread, the fake clock and the fake process/connection world behind whatever
+    names supp.remote uses for them - `from threading import Thread, Lock` or `import threading`, `import time` or
+    `from time import time, sleep`, Popen/Client imported inside _run or at module level.  -> undo list"""
+    import threading
+    import time as real_time
+    undo = []
+
+    def put(obj, attr, val):
+        undo.append((obj, attr, getattr(obj, attr)))
+        setattr(obj, attr, val)
+
+    mk_lock = lambda: SLock(s)                                                    # noqa
+    mk_thread = lambda group=None, target=None, **kw: SThread(s, target=target, **kw)   # noqa
+    put(subprocess, 'Popen', world.popen)
+    put(mpc, 'Client', world.client)
+    for name, val in list(vars(R).items()):
+        if val is threading.Lock or val is threading.RLock:
+            put(R, name, mk_lock)
+        elif val is threading.Thread:
+            put(R, name, mk_thread)
+        elif val is threading:
+            put(R, name, _Namespace(threading, Lock=mk_lock, RLock=mk_lock, Thread=mk_thread))
+        elif val is real_time:
+            put(R, name, world.time)
+        elif val is real_time.time:
+            put(R, name, world.time.time)
+        elif val is real_time.sleep:
+            put(R, name, world.time.sleep)
+        elif val is undo[0][2]:           # the real subprocess.Popen imported at module level
+            put(R, name, world.popen)
+        elif val is undo[1][2]:           # the real multiprocessing.connection.Client
+            put(R, name, world.client)
+        elif val is subprocess:
+            put(R, name, _Namespace(subprocess, Popen=world.popen))
+        elif val is mpc:
+            put(R, name, _Namespace(mpc, Client=world.client))
+    return undo
 
 
 _VIS = None
@@ -222,11 +355,7 @@ def run_scenario(name, ch, stateful=False):
         _VIS = visible_lines()
     s = Sched(ch, [REMOTE_FILE], state_fn=state_fn if stateful else None, visible=_VIS if stateful else None)
 
-    saved = (subprocess.Popen, mpc.Client, R.Lock, R.Thread, R.time)
-    subprocess.Popen, mpc.Client = world.popen, world.client
-    R.Lock = lambda: SLock(s)
-    R.Thread = lambda target=None, **kw: SThread(s, target=target, **kw)
-    R.time = world.time
+    undo = patch_remote(s, world)
     try:
         env = R.Environment()
         box['env'] = env
@@ -256,7 +385,8 @@ def run_scenario(name, ch, stateful=False):
         s.spawn(lambda: do(sc['prog'], ''), 'driver')
         s.run()
     finally:
-        subprocess.Popen, mpc.Client, R.Lock, R.Thread, R.time = saved
+        for obj, attr, val in reversed(undo):
+            setattr(obj, attr, val)
     return observe(name, sc, s, world, results, env)
 
 
@@ -557,7 +687,8 @@ def run(ctx):
         e1.self_test(body, tests, same=lambda a, b: a == b)
     # unbounded stateful search (no preemption bound) for the scenarios whose state space closes
     if quick:
-        st = [('prepare;close', 3000), ('prepare;call;close', 3000), ('call;close;call', 3000), ('connect-retry: prepare;close', 3000)]
+        st = [(n, 3000) for n in ('prepare;close', 'prepare;call;close', 'call;close;call', 'connect-retry: prepare;close', 'call || call',
+                                  'prepare;close;prepare;call;close')]
     else:
         st = [(n, 40000) for n in ('prepare;close', 'prepare;call;close', 'call;close;call', 'prepare;close;prepare;call;close', 'connect-retry: prepare;close',
                                    'call || call', 'prepare || close', 'prepare || call', 'prepare;call || call', 'launch-failure: prepare;call')]
@@ -585,6 +716,6 @@ def run(ctx):
         'Popen/Client/time/Lock/Thread are fakes: a launched server "ends" when it receives a close request or its connection is closed',
         'states/transitions = scheduling choice points met over all schedules (stateless search has no state table)',
         'close() concurrent with a call of another thread is outside the statement and only checked for deadlock',
-        'unbounded stateful search: scheduling points only at lines whose statement mentions self/Popen/Client/time/Thread/Lock (other lines compute on locals and commute); the state key is the per-thread stack of (function, line, simple locals) plus the shared client/world state; scenarios marked closed=false hit the execution cap and are NOT exhaustive',
+        'unbounded stateful search: scheduling points only at lines whose statement touches shared state (self attributes written after __init__, objects reached through self, the patched globals, locals aliasing either - see visible_lines; other lines compute on private locals and commute); the state key is the per-thread stack of (function, line, simple locals) plus the shared client/world state; scenarios marked closed=false hit the execution cap and are NOT exhaustive',
         'real-subprocess cases assert "exits within 10 s" (server polls once per second)',
     ]
